@@ -122,24 +122,35 @@ def run(cx):
             s, d = somes[0]
             ok = cx.guarded(b, s.bb, '(eq 1 (len _))', True) is not None and match('(agg * (0 (index _ 0)))', d) is not None
         cx.ob('GUARD', 'chain_candidates:unique', ok, 'a candidate is returned only when exactly one remaining pair matches (ambiguous junctions stop the chain)', where=b.file)
-        pushes = b.calls('Vec::push')
-        okp = len(pushes) == 1
-        if okp:
-            s = pushes[0]
-            v = cx.arg(s, 1)
-            e = match('(agg tuple (0 (field 0 $it)) (1 (field 1 $it)))', v)
-            okp = e is not None and match('(itervar (call Iterator::enumerate (param pairs)))', e['it']) is not None
-            if okp:
-                g = cx.guarded(b, s.bb, '(eq (index (index (param indices) (field 1 $it)) $j) (param last))', True, e)
-                okp = g is not None
-                if okp:
-                    al = cx.alts(b, {'k': 'copy', 'pl': {'l': [l for l, loc in enumerate(b.locals) if loc['n'] == 'j'][0], 'p': []}}, s.bb, 0)
-                    okj = len(al) == 2
-                    for (bb, dv, gg) in al:
-                        ft = any(p and show(a) == '(param forward)' for a, p in gg)
-                        ff = any((not p) and show(a) == '(param forward)' for a, p in gg)
-                        okj = okj and ((ft and dv == ('const', 0)) or (ff and dv == ('const', 1)))
-                    okp = okj
+        # the candidate list as a comprehension (loop with push or iterator chain alike)
+        from vpa import comp as CP
+        okp = False
+        if len(somes) == 1:
+            ev = match('(agg * (0 (index $vec 0)))', somes[0][1])
+            comps = [c for c in CP.comprehensions(cx, b, ev['vec']) if c.get('elem') is not None] if ev else []
+            if len(comps) == 1:
+                c = comps[0]
+                PAIR = '(index (param pairs) (itervar (range 0 (len (param pairs)))))'
+                okp = match('(param pairs)', c['src']) is not None and match(f'(agg tuple (0 (itervar (range 0 (len (param pairs))))) (1 {PAIR}))', c['elem']) is not None
+                cj = [match(f'(eq (index (index (param indices) {PAIR}) $j) (param last))', a) for a, p in c['conds'] if p]
+                cj = [x for x in cj if x is not None]
+                okp = okp and len(cj) == 1 and cj[0]['j'] in (('phi', ('const', 0), ('const', 1)), ('phi', ('const', 1), ('const', 0)))
+                # the column is 0 going forward and 1 going backward: the only local with two constant definitions 0 / 1 is set under `forward`
+                dag = b.dag()
+                cols = []
+                for l, ds in b.defs().items():
+                    vals = []
+                    for (bb, pos, kind, pay) in ds:
+                        if kind != 'assign' or pay['pl']['p']:
+                            vals = None
+                            break
+                        v = simplify(dag.rvalue(pay['rv'], bb, pos))
+                        ft = any(p and show(a) == '(param forward)' for a, p in cx.guards(b, bb))
+                        ff = any((not p) and show(a) == '(param forward)' for a, p in cx.guards(b, bb))
+                        vals.append((v, ft, ff))
+                    if vals and len(vals) == 2 and {v for v, _, _ in vals} == {('const', 0), ('const', 1)}:
+                        cols.append(all((v == ('const', 0) and ft) or (v == ('const', 1) and ff) for v, ft, ff in vals))
+                okp = okp and cols == [True]
         cx.ob('EXPR', 'chain_candidates:match-end', okp,
               'candidate (k, i) is recorded when indices[i][j] == last with j = 0 (pair starts at the vertex) going forward and j = 1 (pair ends at it) going backward; k is the position in pairs, i the pair id',
               where=b.file)
